@@ -249,7 +249,7 @@ def check_csv(case, ctx):
             cs = ds.cases([("obs",), ("fcst",)], i, axis, k)
             e = math.fsum(abs(o - f) for o, f in cs) / len(cs) if cs else float("nan")
             g = float(row[len(row) - n_in + i])
-            if not cmpx.close(g, e if math.isnan(e) else cmpx.fmt_sig(e, 6), 1e-5):
+            if not cmpx.printed_ok(g, e, 6, rel=1e-5):
                 ctx.fail("C15/csv/mae", case, "-T %d -Tagg %s -Tx %s row %d input %d: %r, model %r" % (h, agg, tx, k, i, g, e))
 
 
